@@ -269,6 +269,7 @@ class E712:
             return b'\x00' * 12 + a
         if k in ('uintN', 'intN'):
             r = ranged(v, ty[1], k == 'intN')
+            if isinstance(v, Lit) and any(c in v for c in '.eE'): self.unc = True
             if r == 'reject': raise Rej('integer')
             if r[0] == 'unconstrained': self.unc = True
             return (r[1] % 2**256).to_bytes(32, 'big')
